@@ -13,7 +13,10 @@
 struct alw_ctl alw;
 static const char *NAMES[] = {"malloc", "mmap", "mremap", "munmap", "open", "fstat", "read", "fopen", "fwrite", "fclose", "write", "calloc", "realloc", "fflush", "fdopen", "ftruncate"};
 const char *alw_kind_name(int k) { return k >= 0 && k < ALW_NKINDS ? NAMES[k] : "?"; }
-void alw_reset(void) { int g = alw.guard_files, c = alw.guard_code; memset(&alw, 0, sizeof alw); alw.guard_files = g; alw.guard_code = c; }
+void alw_reset(void) { int g = alw.guard_files, c = alw.guard_code, f = alw.force_move; long s = alw.salt; memset(&alw, 0, sizeof alw); alw.guard_files = g; alw.guard_code = c; alw.force_move = f; alw.salt = s; }
+/* realistic errno values, rotating with the index of the failed call */
+static int pick(const int *v, int n) { return v[(unsigned long)(alw.counter + alw.fail_at + alw.salt) % (unsigned long)n]; }
+static const int E_MEM[] = {ENOMEM, EAGAIN}, E_OPEN[] = {EMFILE, ENFILE, EACCES, EINTR, ENOENT}, E_IO[] = {EIO, EINTR, ENOSPC, EDQUOT};
 
 /* returns 1 if this call must fail */
 static int hit(int kind) {
@@ -51,23 +54,31 @@ void *alw_mmap(void *addr, size_t len, int prot, int flags, int fd, off_t off) {
   }
   return mmap(addr, len, prot, flags, fd, off);
 }
-void *alw_mremap(void *old, size_t oldlen, size_t newlen, int flags, ...) { if (hit(ALW_MREMAP)) { errno = ENOMEM; return MAP_FAILED; } return mremap(old, oldlen, newlen, flags); }
+void *alw_mremap(void *old, size_t oldlen, size_t newlen, int flags, ...) {
+  if (hit(ALW_MREMAP)) { errno = pick(E_MEM, 2); return MAP_FAILED; }
+  if (alw.force_move && (flags & MREMAP_MAYMOVE)) {
+    /* relocate for sure: reserve a fresh range and move the mapping there; the old range is left unmapped */
+    void *fresh = mmap(NULL, newlen, PROT_NONE, MAP_PRIVATE | MAP_ANONYMOUS, -1, 0);
+    if (fresh != MAP_FAILED) { void *p = mremap(old, oldlen, newlen, MREMAP_MAYMOVE | MREMAP_FIXED, fresh); if (p != MAP_FAILED) return p; munmap(fresh, newlen); }
+  }
+  return mremap(old, oldlen, newlen, flags);
+}
 int alw_munmap(void *addr, size_t len) { if (hit(ALW_MUNMAP)) { errno = EINVAL; return -1; } return munmap(addr, len); }
 int alw_open(const char *path, int flags, ...) {
   mode_t mode = 0; if (flags & O_CREAT) { va_list ap; va_start(ap, flags); mode = va_arg(ap, mode_t); va_end(ap); }
   else { va_list ap; va_start(ap, flags); mode = va_arg(ap, mode_t); va_end(ap); }
-  if (hit(ALW_OPEN)) { errno = EMFILE; return -1; }
+  if (hit(ALW_OPEN)) { errno = pick(E_OPEN, 5); return -1; }
   return open(path, flags, mode);
 }
 int alw_fstat(int fd, struct stat *st) { if (hit(ALW_FSTAT)) { errno = EIO; return -1; } return fstat(fd, st); }
-ssize_t alw_read(int fd, void *buf, size_t n) { if (hit(ALW_READ)) { errno = EIO; return -1; } return read(fd, buf, n); }
+ssize_t alw_read(int fd, void *buf, size_t n) { if (hit(ALW_READ)) { errno = pick(E_IO, 2); return -1; } return read(fd, buf, n); }
 FILE *alw_fopen(const char *path, const char *mode) { if (hit(ALW_FOPEN)) { errno = EACCES; return NULL; } return fopen(path, mode); }
 size_t alw_fwrite(const void *p, size_t sz, size_t n, FILE *f) {
   if (f == stderr || f == stdout) return fwrite(p, sz, n, f);   /* diagnostics, not a resource the property is about */
-  if (hit(ALW_FWRITE)) { errno = ENOSPC; size_t half = n / 2; if (half) fwrite(p, sz, half, f); return half; } /* short write */
+  if (hit(ALW_FWRITE)) { errno = pick(E_IO, 4); size_t half = n / 2; if (half) fwrite(p, sz, half, f); return half; } /* short write */
   return fwrite(p, sz, n, f);
 }
-int alw_fclose(FILE *f) { if (hit(ALW_FCLOSE)) { fclose(f); errno = ENOSPC; return EOF; } /* late ENOSPC: data did not reach the disk */ return fclose(f); }
+int alw_fclose(FILE *f) { if (hit(ALW_FCLOSE)) { int e = pick(E_IO, 4); fclose(f); errno = e; return EOF; } /* late ENOSPC: data did not reach the disk */ return fclose(f); }
 
 /* superset: calls the pinned library does not make today, so that a refactored reader/writer stays covered */
 ssize_t alw_write(int fd, const void *p, size_t n) { if (fd == 1 || fd == 2) return write(fd, p, n); if (hit(ALW_WRITE)) { errno = ENOSPC; size_t half = n / 2; if (half) return write(fd, p, half); return -1; } return write(fd, p, n); }
